@@ -57,13 +57,15 @@ Theorem C01_result_checker_sound :
 Proof. exact pins_ok_b_sound. Qed.
 Print Assumptions C01_result_checker_sound.
 
-(* The property's own reading (extras as requested by anyone; every constraint file) is FALSE. *)
-Theorem C01_refuted_extras_overwrite :
+(* The former counter-example to the property's own reading (an extra requested through a second requirement of
+   the same requirer was lost when the edge reason was overwritten) now resolves consistently: the reasons of one
+   edge are combined (/repo fix), b is expanded with extras y and z, and c is pinned inside c<2. *)
+Theorem C01_extras_of_one_edge_are_combined :
   w_c01_extras_overwrite_pins (w_c01_extras_overwrite_run 100)
-    = [Some (Some "1.0"); Some (Some "1.0"); Some (Some "2.0")] /\
-  spec_contains [mkC OLt (mkV 0 [2%N] None None None []) false] (mkV 0 [2%N; 0%N] None None None []) true = false.
-Proof. exact c01_extras_overwrite_witness. Qed.
-Print Assumptions C01_refuted_extras_overwrite.
+    = [Some (Some "1.0"); Some (Some "1.0"); Some (Some "1.0")] /\
+  spec_contains [mkC OLt (mkV 0 [2%N] None None None []) false] (mkV 0 [1%N; 0%N] None None None []) true = true.
+Proof. exact c01_extras_combined_witness. Qed.
+Print Assumptions C01_extras_of_one_edge_are_combined.
 
 (* Fully pinned constraint files (after /repo 8ac3bda): the pin table merges every pin of every
    file - for each requirement of each constraint file there is a table entry at least as strong. *)
